@@ -375,6 +375,13 @@ impl Database {
 
         if dirty_regions.is_empty() {
             debug!("{}: flush (no dirty)", self);
+            // A removed region leaves no dirty region behind, only a zeroed metadata slot
+            // and a pending hole: the slot must be durable before the hole is reusable.
+            if self.layout().has_pending_holes() {
+                let regions = self.regions();
+                regions.flush()?;
+                regions.sync_data()?;
+            }
             self.layout_mut().promote_pending_holes(self.name());
             return Ok(0);
         }
